@@ -247,6 +247,12 @@ func c14Check(cc *run.Case, ns namedStrat, class string, n int) bool {
 			if k < 0 {
 				continue
 			}
+			// A cell that is NaN/Inf at the row of p (an undefined 0/0 term still
+			// inside a moving window) cannot show a reaction: unobservable, not late.
+			if row := max(p, first) - first; row < len(d.Cols[i]) && row < len(alt.Cols[i]) && (nonFiniteCell(d.Cols[i][row]) || nonFiniteCell(alt.Cols[i][row])) && first+k >= p {
+				cc.Count("front_probes_unobservable", 1)
+				continue
+			}
 			if first+k < p {
 				fail("", fmt.Sprintf("column %d %q: changing the snapshots from position %d on changes the value plotted at row %d (date of snapshot %d): the column is drawn too early", i, d.Names[i], p, k, first+k))
 				return false
@@ -298,6 +304,10 @@ func c14Check(cc *run.Case, ns namedStrat, class string, n int) bool {
 		}
 	}
 	return true
+}
+
+func nonFiniteCell(s string) bool {
+	return strings.Contains(s, "NaN") || strings.Contains(s, "Inf")
 }
 
 func firstDiffS(a, b []string) int {
